@@ -4,6 +4,20 @@ import json, os, subprocess
 V = os.path.dirname(os.path.dirname(os.path.abspath(__file__)))
 
 CLAIMED = {
+ 'C07': dict(
+    text='Theorems over a model of the bytecode loader (decoder with its stack-depth analysis) and the interpreter loop for opcodes 0x00-0x18, '
+         '0x30-0x32, 0x3E-0x41: (1) for EVERY expression tree with 32-bit constants that fits the stack, the loader accepts its postfix bytecode '
+         'and running it returns exactly the value of the tree under the opcode specification on int32 (signed compares, 0/1 logic, signed '
+         'min/max, truncating division dying cleanly on 0 and INT_MIN/-1); (2) whatever the loader accepts never underflows the stack and '
+         'reaches a return.  Tie A: enum opcode, opcode_table.h (parameter sizes, action/constraint availability), the names in doc/OpCodes.adoc, '
+         'STACK_MAX and MAX_OPCODE are regenerated from the source and checked against the model by kernel evaluation.  Tie B: the extracted model '
+         'vs Machine::Code + Machine::run in BOTH interpreter builds (direct- and call-threaded) under ASan/UBSan over a boundary lattice for every '
+         'opcode, random trees, stack-limit programs and random byte strings; Python reference of the spec as oracle; the two builds compared case by case.',
+    note='Trusted: Coq kernel (vm_compute for the finite table check); gen_src; extraction + driver; harness impl_vm.cpp; Python reference; g++/ASan/UBSan. '
+         'Opcodes outside the subset are declined by the model.  The two builds share opcodes.h: their agreement is differential, not proved.  Two '
+         'findings repaired by fix: commits (UB in NEG; opcode document numbering of BitOr/BitAnd).',
+    technique='Coq proof (compiler-correctness style induction over expression trees; loader invariant) + regenerated opcode tables (tie A) + differential correspondence in two builds (tie B)',
+    design='6/C07'),
  'C11': dict(
     text='Theorems (Coq 8.16) over a model of the three UTF codecs and count_unicode_chars, for ALL buffers: the bounded form never reads '
          'outside [begin,end) and the NUL-terminated form nothing beyond the first NUL (checked reads; validate() is shown to dominate '
